@@ -25,7 +25,8 @@ RULE = ("file_formats[bin|raw|bk_wav|bk_turbo_wav] of the real code on: an image
         "every make_xxx directive x path form x tape-name form x source-name form through the assembler (Compiler.emitted_files), "
         "sources with 2-4 make_xxx directives (several of the same container with different paths and explicit/inferred tape names, "
         "mixed containers, the same path twice, together with -o), "
-        "and real `python -m pdpy11` runs in scratch directories for every output selector (files found = files expected, "
+        "and real `python -m pdpy11` runs in scratch directories for every output selector and the full cross product "
+        "{-o bin/raw/other/stdout, none} x {--implicit-bin} x {no / one / several make_xxx} x {--lst} (files found = files expected and nothing else, "
         "contents decoded by the Spec readers).  non-trivial = distinct (container, base, image, name) with a non-empty image, "
         "distinct path triple, distinct directive case, distinct CLI scenario")
 LEVEL_TEXT = ("Coq theorems over tables regenerated from bk_wav.py/formats.py on every run: raw identity, bin layout incl. struct.error "
@@ -444,11 +445,22 @@ def gen_cli_cases(rng, tier):
     infile spelling (abs / rel), outfile, implicit_bin, dirs to create"""
     sc = []
 
-    def add(sources, outfile=None, implicit=False, cwd="proj", spell="rel", base=0o1000, note=""):
+    def add(sources, outfile=None, implicit=False, cwd="proj", spell="rel", base=0o1000, note="", lst=False):
         sc.append({"type": "cli", "cwd": cwd, "sources": sources, "outfile": outfile, "implicit": implicit, "spell": spell,
-                   "base": base, "note": note})
+                   "base": base, "note": note, "lst": lst})
 
     S = "proj/src/prog.mac"
+    # full cross product of the output selectors: -o kind x --implicit-bin x directives x --lst
+    o_kinds = [None, "x.bin", "x.raw", "out.dat", "-", "sub/y.BIN"]
+    dsets = [[], [("make_bin", None, None)], [("make_raw", "r", None), ("make_wav", "w.wav", "N")]]
+    if tier != "quick":
+        o_kinds += ["-.bin", "ABS:/o/z", "x.bk_wav", "noext"]
+        dsets += [[("make_wav", None, None)], [("make_turbo_wav", "t.bk_turbo_wav", None), ("make_bin", "b2.bin", None)], [("make_raw", None, None)]]
+    for o in o_kinds:
+        for imp in (False, True):
+            for ds in dsets:
+                for lst in (False, True):
+                    add([(S, list(ds))], outfile=o, implicit=imp, lst=lst, note="cross")
     # -o selectors
     for o in ["x.bin", "x.raw", "out.dat", "OUT.BIN", "noext", "sub/x.bin", "sub/y", "../up.bin", "-", "-.bin", "-.raw", "x.bin.raw", "a.b/c", "ABS:/o/z.bin", "ABS:/o/z"]:
         add([(S, [])], outfile=o)
@@ -514,7 +526,7 @@ def gen_cli_cases(rng, tier):
     for _ in range(24 if tier == "quick" else 160):
         add([(rng.choice(["proj/src/prog.mac", "proj/src/P.MAC", "proj/src/noext.asm"]), multi())],
             outfile=rng.choice([None, None, "k.bin", "sub/k", "-"]), implicit=rng.random() < 0.3,
-            cwd=rng.choice(["proj", "proj/src", ""]), spell=rng.choice(["rel", "abs"]), base=rng.choice(BASES[:4]))
+            cwd=rng.choice(["proj", "proj/src", ""]), spell=rng.choice(["rel", "abs"]), base=rng.choice(BASES[:4]), lst=rng.random() < 0.3)
     n = 0 if tier == "quick" else 300
     for _ in range(n):
         d = rng.choice(list(DIRS))
@@ -578,6 +590,8 @@ def run_cli_case(s_, rootbase):
             argv += ["-o" + outfile] if outfile.startswith("-.") else ["-o", outfile]
         if s_["implicit"]:
             argv.append("--implicit-bin")
+        if s_.get("lst"):
+            argv.append("--lst")
         env = dict(os.environ, PYTHONPATH=C.REPO, PYTHONDONTWRITEBYTECODE="1")
         try:
             p = subprocess.run(argv, cwd=cwd, env=env, stdout=subprocess.PIPE, stderr=subprocess.PIPE, timeout=60)
@@ -592,7 +606,12 @@ def run_cli_case(s_, rootbase):
                     data = f.read()
                 if before.get(pth) != data:
                     found[os.path.realpath(pth)] = data
-        res.update(root=root, cwd=cwd, infiles=infiles, files=files, found=found, outfile=outfile, argv=argv[1:])
+        lsts = [q for q in found if q.endswith(".lst")]
+        obs_lst = None
+        if len(lsts) == 1:      # the listing is C19's subject: here only where it is, and that nothing else appears
+            obs_lst = lsts[0]
+            res["lst_len"] = len(found.pop(obs_lst))
+        res.update(root=root, cwd=cwd, infiles=infiles, files=files, found=found, obs_lst=obs_lst, outfile=outfile, argv=argv[1:])
     except Exception as ex:  # harness-level problem: surfaced, never hidden
         res["harness_error"] = type(ex).__name__ + ": " + str(ex)[:300]
     finally:
@@ -634,12 +653,27 @@ def cli_expected(s_, o):
             stdout_kind = kind
         else:
             exp.append((os.path.realpath(os.path.join(o["cwd"], outfile)), kind, None))
+    # --lst: next to the -o / --implicit-bin file if there is one, else next to the first directive's file;
+    # the extension naming the container (".bin", ".raw", ".bk_wav", ".bk_turbo_wav") is replaced by ".lst"
+    o["expected_lst"] = None
+    if s_.get("lst") and not fail:
+        if outfile is not None:
+            if stdout_kind is not None:
+                o["expected_lst"] = os.path.realpath(os.path.join(o["cwd"], "listing.lst"))
+            else:
+                o["expected_lst"] = _lst_name(exp[-1][0], exp[-1][1])
+        elif exp:
+            o["expected_lst"] = _lst_name(exp[0][0], exp[0][1])
     # a path written twice holds what the LAST directive / option naming it asked for
     last = {}
     for e in exp:
         last[e[0]] = e
     exp = [e for e in exp if last[e[0]] is e]
     return (None if fail else exp), stdout_kind
+
+
+def _lst_name(path, kind):
+    return (path[:-len(kind) - 1] if path.endswith("." + kind) else path) + ".lst"
 
 
 def cli_image(s_, o):
@@ -658,10 +692,11 @@ def cli_term(s_, o, model):
         "(%s, %s, %s)" % (cstr(p), KINDS[k], opt(C.zlist(nm)) if nm is not None else "None") for p, k, nm in exp)
     files_t = "; ".join("(%s, %s)" % (cstr(p), rep_term(d)) for p, d in sorted(o["found"].items()))
     t = ("{| cc_cwd := %s; cc_sources := [%s]; cc_outfile := %s; cc_implicit_bin := %s; cc_base := %s; cc_code := %s; cc_expected := %s; "
-         "cc_expected_stdout := %s; cc_obs_ok := %s; cc_obs_files := [%s]; cc_obs_stdout := %s |}"
+         "cc_expected_stdout := %s; cc_lst := %s; cc_expected_lst := %s; cc_obs_ok := %s; cc_obs_files := [%s]; cc_obs_lst := %s; cc_obs_stdout := %s |}"
          % (cstr(o["cwd"]), "; ".join(srcs), opt(cstr(o["outfile"])) if o["outfile"] is not None else "None", "true" if s_["implicit"] else "false",
             C.zlit(o["image"][0]), C.zlist(o["image"][1]), exp_t, opt(KINDS[stdout_kind]) if stdout_kind else "None",
-            "true" if o["exit"] == 0 else "false", files_t, rep_term(o["stdout"])))
+            "true" if s_.get("lst") else "false", opt(cstr(o["expected_lst"])) if o.get("expected_lst") else "None",
+            "true" if o["exit"] == 0 else "false", files_t, opt(cstr(o["obs_lst"])) if o.get("obs_lst") else "None", rep_term(o["stdout"])))
     return ("CCli " if model else "OCli ") + t
 
 
@@ -670,6 +705,7 @@ def cli_input(s_, o):
             "argv": o.get("argv"), "cwd": o.get("cwd"), "sources": [[p, t] for p, t in o.get("files", [])],
             "exit": o.get("exit"), "found": {p: (d.hex() if len(d) <= 400 else "sha1:" + hashlib.sha1(d).hexdigest() + " len=%d" % len(d)) for p, d in o.get("found", {}).items()},
             "expected": [[p, k, nm.hex() if nm else None] for p, k, nm in (o.get("expected") or [])] if o.get("expected") is not None else "must fail, no files",
+            "listing_found": o.get("obs_lst"), "listing_expected": o.get("expected_lst") if s_.get("lst") else "none (no --lst)",
             "stderr_tail": o.get("stderr")}
 
 
@@ -702,7 +738,7 @@ def cli_usable(s_):
     o = s_["obs"]
     if "harness_error" in o or o.get("exit") is None:
         return False
-    strings = [o["cwd"]] + o["infiles"] + list(o["found"]) + ([o["outfile"]] if o["outfile"] else [])
+    strings = [o["cwd"]] + o["infiles"] + list(o["found"]) + ([o["outfile"]] if o["outfile"] else []) + ([o["obs_lst"]] if o.get("obs_lst") else [])
     return all(all(32 <= ord(ch) < 127 for ch in x) for x in strings)
 
 
@@ -798,7 +834,7 @@ def collect(rep, tier, seed, model):
     for s_ in ccases:
         rep.add_eval()
         rep.count("cli")
-        rep.nontrivial(("c", s_["idx"], s_["cwd"], str(s_["sources"]), s_["outfile"], s_["implicit"], s_["spell"]))
+        rep.nontrivial(("c", s_["cwd"], str(s_["sources"]), s_["outfile"], s_["implicit"], s_["spell"], s_.get("lst")))
         if not cli_usable(s_):
             rep.violate("cli-run:%d" % s_["idx"], "the command-line run did not finish / harness problem", cli_input(s_, s_["obs"]), impl=str(s_["obs"])[:500])
             continue
@@ -850,7 +886,7 @@ def collect(rep, tier, seed, model):
             if code & 1:
                 rep.disagree("command line: Model.OutPath.cli_outputs + file formats vs files written by `python -m pdpy11`", cli_input(c, c["obs"]))
             if code & 2:
-                rep.violate("cli:%s:%s:%s:%s" % (c["sources"], c["outfile"], c["implicit"], c["cwd"]),
+                rep.violate("cli:%s:o=%s:implicit=%s:lst=%s:cwd=%s" % (c["sources"], c["outfile"], c["implicit"], c.get("lst"), c["cwd"]),
                             "files written by `python -m pdpy11` differ from the files the property expects, or their contents do not decode to the image",
                             cli_input(c, c["obs"]), replay="python -m pdpy11 <argv> in a scratch tree")
     return fcases, dcases, ccases
